@@ -1,8 +1,9 @@
 import PyramidModel.Lemmas.SessionSpec
 import PyramidModel.Gen.C10Wrap
 /-!
-C10: what the hand-written model assumes about the SHAPE of `CookieSession`'s class body, in a form that can be
-compared with the table `extract/c10.py` regenerates from the source (`Gen/C10Wrap.lean`).
+C10: the behavioural tables `extract/c10.py` obtains by RUNNING the session code of the tree under test
+(`Gen/C10Wrap.lean`), and the same tables computed from the model (`runOp`, `load`, `finish`), so that Props/C10.lean can
+decide them equal.  The probes here mirror, one for one and in order, the probes of the translator.
 -/
 namespace Pyr.Session
 
@@ -16,29 +17,104 @@ def methodOf : Op → String
   | .newCsrf _ => "new_csrf_token" | .getCsrf _ => "get_csrf_token"
   | .invalidate => "invalidate" | .changed => "changed"
 
-/-- the wrapper `runOp` applies FIRST for each operation (`invalidate` and `changed` are plain methods; `invalidate`
-reaches the `manage_changed` wrapper through `self.clear()`) -/
-def sourceWrapOf : Op → String
-  | .get _ _ | .getitem _ | .contains _ | .len | .keys | .items | .values | .iter => "manage_accessed"
-  | .peekFlash _ | .getCsrf _ => "manage_accessed"
-  | .invalidate | .changed => "plain"
-  | _ => "manage_changed"
+/-- the spec's class of an operation, in the translator's vocabulary -/
+def classOf (op : Op) : String :=
+  match Spec.wrapOf op with
+  | .accessed => "accessed"
+  | .changed => "changed"
+  | .plain => "mark"
 
-/-- the wrapped methods the composite methods of the model call (`runOp`: flash -> opSetdefault, …) -/
-def modelInnerCalls : List (String × List String) := [
-  ("changed", ["_set_cookie"]),
-  ("invalidate", ["clear"]),
-  ("flash", ["setdefault"]),
-  ("pop_flash", ["pop"]),
-  ("peek_flash", ["get"]),
-  ("new_csrf_token", ["__setitem__"]),
-  ("get_csrf_token", ["get", "new_csrf_token"]),
-  ("_set_cookie", [])]
+/-- a session loaded from a cookie renewed and created at 100.0 s (not dirty, `accessed` still the float) -/
+def probeSess (d : Data) : Sess := ⟨d, 400, 400, false, 400, false, false, 0⟩
+
+def probeState : Data := [("a", .int 1), ("_csrft_", .str "t"), ("_f_", .arr [.str "x"])]
+
+def probeTok : String := "0707070707070707070707070707070707070707"
+
+/-- the translator's `_classify`, on the model: the call at 105.75 s and at 120.5 s with reissue_time 10, and at 120.5 s
+without reissue -/
+def classify (op : Op) (d : Data) : String :=
+  let a := (runOp ⟨none, some 10, true⟩ 423 op (probeSess d)).1
+  let b := (runOp ⟨none, some 10, true⟩ 482 op (probeSess d)).1
+  let n := (runOp ⟨none, none, true⟩ 482 op (probeSess d)).1
+  if a.dirty && a.accessed == 420 && a.accInt && a.callbacks == 1 && b.dirty && b.accessed == 480 && n.dirty && n.callbacks == 1 then
+    "changed"
+  else if !a.dirty && a.accessed == 420 && a.accInt && a.callbacks == 0 && b.dirty && b.accessed == 480 && b.accInt
+      && b.callbacks == 1 && !n.dirty && n.accessed == 480 then "accessed"
+  else if a.dirty && a.accessed == 400 && !a.accInt && a.callbacks == 1 && n.dirty && n.accessed == 400 then "mark"
+  else "unknown"
+
+/-- (probe name, loaded state, call) — same names, same order as `CALLS` in extract/c10.py -/
+def probes : List (String × Data × Op) := [
+  ("get", probeState, .get "a" none),
+  ("get/default", probeState, .get "zz" (some .null)),
+  ("__getitem__", probeState, .getitem "a"),
+  ("items", probeState, .items),
+  ("values", probeState, .values),
+  ("keys", probeState, .keys),
+  ("__contains__", probeState, .contains "a"),
+  ("__len__", probeState, .len),
+  ("__iter__", probeState, .iter),
+  ("clear", probeState, .clear),
+  ("update", probeState, .update [("b", .int 1)]),
+  ("setdefault", probeState, .setdefault "b" (.int 1)),
+  ("setdefault/present", probeState, .setdefault "a" (.int 1)),
+  ("pop", probeState, .pop "a" none),
+  ("pop/default-is-stored", [("a", .null)], .pop "a" (some .null)),
+  ("pop/absent-with-default", probeState, .pop "zz" (some .null)),
+  ("pop/absent", probeState, .pop "zz" none),
+  ("popitem", probeState, .popitem),
+  ("__setitem__", probeState, .set "b" (.int 1)),
+  ("__delitem__", probeState, .del "a"),
+  ("__delitem__/absent", probeState, .del "zz"),
+  ("flash", probeState, .flash (.str "m") "" true),
+  ("flash/no-duplicate", probeState, .flash (.str "x") "" false),
+  ("pop_flash", probeState, .popFlash ""),
+  ("pop_flash/absent", probeState, .popFlash "q"),
+  ("peek_flash", probeState, .peekFlash ""),
+  ("new_csrf_token", probeState, .newCsrf probeTok),
+  ("get_csrf_token", probeState, .getCsrf probeTok),
+  ("get_csrf_token/no-token", [("a", .int 1)], .getCsrf probeTok),
+  ("changed", probeState, .changed),
+  ("invalidate", probeState, .invalidate)]
+
+def modelBehaviour : List (String × String) := probes.map (fun p => (p.1, classify p.2.2 p.2.1))
 
 /-- the in-place mutators of `dict` that the statement's operation list reaches -/
 def dictMutators : List String := ["clear", "update", "setdefault", "pop", "popitem", "__setitem__", "__delitem__"]
 
 /-- the read accessors of `dict` that the statement's operation list reaches -/
 def dictReaders : List String := ["get", "__getitem__", "items", "values", "keys", "__contains__", "__len__", "__iter__"]
+
+/-- the cookie of the threshold probes: renewed and created at 100.0 s, state `{'a': 1}` -/
+def probeWire : Wire := Wire.ofPayload ⟨400, false, 400, [("a", .int 1)]⟩
+
+def modelTimeout (t : Option Nat) (now : Nat) : Option Bool :=
+  (load ⟨t, none, true⟩ now (some probeWire)).map (fun s => s.data.isEmpty)
+
+def modelReissue (r now : Nat) : Bool :=
+  (runOp ⟨none, some r, true⟩ now (.get "a" none) (probeSess [("a", .int 1)])).1.dirty
+
+/-- a serialiser whose output has exactly `n` characters -/
+def sizeCodec (n : Nat) : Codec Unit := ⟨fun _ => (), fun _ => none, fun _ => n⟩
+
+def isCookie {κ : Type} : Outcome κ → Bool
+  | .cookie _ => true
+  | _ => false
+
+def dirtySess : Sess := (runOp ⟨none, none, true⟩ 400 (.set "b" (.int 1)) (probeSess [("a", .int 1)])).1
+
+def modelSize (n : Nat) : Bool := isCookie (finish (sizeCodec n) ⟨none, none, true⟩ false dirtySess)
+
+def modelExc (soe exc : Bool) : Bool := isCookie (finish (sizeCodec 10) ⟨none, none, soe⟩ exc dirtySess)
+
+def modelCallbacksAfterMany : Nat :=
+  (runOps ⟨none, some 0, true⟩ 440 (probeSess probeState)
+    [(0, .get "a" none), (0, .set "b" (.int 1)), (0, .flash (.str "m") "" true), (0, .changed), (0, .newCsrf probeTok),
+     (0, .invalidate), (0, .popFlash ""), (0, .getCsrf probeTok)]).2.1.callbacks
+
+def modelPayload : Nat × Bool × Nat × List String :=
+  let s := (runOp ⟨none, some 10, true⟩ 482 (.get "a" none) (probeSess [("a", .int 1)])).1
+  (s.payload.accessed, s.payload.accInt, s.payload.created, s.payload.data.map (·.1))
 
 end Pyr.Session
